@@ -401,6 +401,24 @@ fn write_inflight(spec: &Spec<'_>) {
     });
 }
 
+/// In-flight record for direct scanner calls (C12): marker byte 0xC1 in slot[7].
+pub fn write_inflight_scanner(backend: u8, class: u8, place: u8, start: u16, cell: u8, buf: &[u8]) {
+    INFLIGHT.with(|c| {
+        let (p, cap) = c.get();
+        if p.is_null() {
+            return;
+        }
+        let n = buf.len().min(cap - SLOT_HDR);
+        unsafe {
+            let hdr: [u8; 8] = [9, backend, place, cell, (start & 0xff) as u8, (start >> 8) as u8, 1, 0xC1];
+            std::ptr::copy_nonoverlapping(hdr.as_ptr(), p, 8);
+            std::ptr::copy_nonoverlapping((class as u64).to_le_bytes().as_ptr(), p.add(8), 8);
+            std::ptr::copy_nonoverlapping((buf.len() as u64).to_le_bytes().as_ptr(), p.add(16), 8);
+            std::ptr::copy_nonoverlapping(buf.as_ptr(), p.add(SLOT_HDR), n);
+        }
+    });
+}
+
 pub fn clear_inflight() {
     INFLIGHT.with(|c| {
         let (p, _) = c.get();
